@@ -37,6 +37,9 @@ TEXT.update({
          "6 C18", "Lean 4 proof over CLI loop + generated-marker predicate + exhaustive header table against the binary"),
 })
 
+TEXT["C15"] = ("Lean theorems over an abstract file system: membership in the walk result characterised exactly (regular file, .go suffix, reached only through non-excluded directories including the named one), symlinks/other never, each path once (sortUniq membership) ; the README literals vendor/testdata/./_ are decided in Lean. Tie: trees created on disk, processed list read from the binary's -v lines vs the model findFiles.",
+         "6 C15", "Lean 4 proof over file-system walk model + black-box correspondence on generated directory trees")
+
 REASONS = {}
 
 def main():
